@@ -176,12 +176,28 @@ class Check:
         log = p.stdout.decode(errors="replace") + p.stderr.decode(errors="replace")
         return p.returncode == 0, log
 
-    def build_driver(self):
+    def build_driver(self, families=None):
+        """Build nvdriver. A build failure counts as a broken tie of THIS property only when the
+        failing file belongs to the import closure of the driver families it uses (`families`, e.g.
+        ["Pool"]; None = any failure counts). With an unrelated failure the previously built binary is
+        used (MachineryError if there is none)."""
         ok, log = self.lake_build(["nvdriver"])
-        if not ok:
-            # a Gen change can break the *driver* only through a model file; treat as broken tie
-            self.broken.append({"kind": "driver-build-failed", "what": _errors_of(log)[:5]})
-        return ok
+        if ok:
+            return True
+        errs = _errors_of(log)
+        relevant = True
+        if families:
+            deps = {os.path.relpath(p, LEAN) for p in lean_deps([f"NaijaVerif.Driver.{f}" for f in families] + ["NaijaVerif.Driver.Util"])}
+            files = set(re.findall(r"error: ([^:\s]+\.lean):\d+", log))
+            relevant = (not files) or bool(files & deps)
+        if relevant:
+            self.broken.append({"kind": "driver-build-failed", "what": errs[:5]})
+        else:
+            self.notes.append("nvdriver rebuild failed in files outside this property's driver families; using the previous binary: "
+                              + "; ".join(errs[:2]))
+            if not os.path.exists(DRIVER):
+                raise MachineryError("nvdriver does not build and no previous binary exists:\n" + "\n".join(errs[:10]))
+        return False
 
     # ------------------------------------------------------------- obligations
     def lean_obligations(self, modules):
